@@ -767,9 +767,7 @@ impl Generatable for Statement
 			{
 				let cname = CString::new(&name.name as &str)?;
 				let vartype = value_type.generate(llvm)?;
-				let loc = unsafe {
-					LLVMBuildAlloca(llvm.builder, vartype, cname.as_ptr())
-				};
+				let loc = generate_entry_alloca(vartype, &cname, llvm);
 				llvm.local_variables.insert(name.resolution_id, loc);
 				let value = value.generate(llvm)?;
 				unsafe {
@@ -785,9 +783,7 @@ impl Generatable for Statement
 			{
 				let cname = CString::new(&name.name as &str)?;
 				let vartype = value_type.generate(llvm)?;
-				let loc = unsafe {
-					LLVMBuildAlloca(llvm.builder, vartype, cname.as_ptr())
-				};
+				let loc = generate_entry_alloca(vartype, &cname, llvm);
 				llvm.local_variables.insert(name.resolution_id, loc);
 				Ok(())
 			}
@@ -2050,13 +2046,41 @@ fn generate_autocoerce(
 	}
 }
 
+/// Reserve stack space for a variable at the start of the current function,
+/// because stack space reserved inside a looped block is reserved again
+/// in every iteration and only released when the function returns.
+fn generate_entry_alloca(
+	vartype: LLVMTypeRef,
+	cname: &CStr,
+	llvm: &mut Generator,
+) -> LLVMValueRef
+{
+	unsafe {
+		let current_block = LLVMGetInsertBlock(llvm.builder);
+		let function = LLVMGetBasicBlockParent(current_block);
+		let entry_block = LLVMGetEntryBasicBlock(function);
+		let first_instruction = LLVMGetFirstInstruction(entry_block);
+		if first_instruction.is_null()
+		{
+			LLVMPositionBuilderAtEnd(llvm.builder, entry_block);
+		}
+		else
+		{
+			LLVMPositionBuilderBefore(llvm.builder, first_instruction);
+		}
+		let loc = LLVMBuildAlloca(llvm.builder, vartype, cname.as_ptr());
+		LLVMPositionBuilderAtEnd(llvm.builder, current_block);
+		loc
+	}
+}
+
 fn generate_tmp_address(
 	value: LLVMValueRef,
 	vtype: LLVMTypeRef,
 	llvm: &mut Generator,
 ) -> Result<LLVMValueRef, anyhow::Error>
 {
-	let tmp = unsafe { LLVMBuildAlloca(llvm.builder, vtype, cstr!("")) };
+	let tmp = generate_entry_alloca(vtype, &CString::new("")?, llvm);
 	unsafe {
 		LLVMBuildStore(llvm.builder, value, tmp);
 	}
